@@ -309,6 +309,19 @@ func (c *connApp) DeliverTx(req abci.RequestDeliverTx) abci.ResponseDeliverTx {
 					}
 				}
 			}
+		case strings.HasPrefix(tx, "valraw:"):
+			// valraw:<ed25519|secp256k1>:<hexpk>:<power> - a misbehaving application: the entry
+			// goes into the EndBlock batch exactly as given (any key type, any power, also
+			// negative), in transaction order, unfiltered, and the application's own validator
+			// view is not touched.
+			f := strings.Split(tx, ":")
+			if len(f) >= 4 && (f[1] == "ed25519" || f[1] == "secp256k1") {
+				pkb, err1 := hex.DecodeString(f[2])
+				pw, err2 := strconv.ParseInt(f[3], 10, 64)
+				if err1 == nil && err2 == nil && ((f[1] == "ed25519" && len(pkb) == ed25519.PubKeySize) || (f[1] == "secp256k1" && len(pkb) == 33)) {
+					a.pendingVals = append(a.pendingVals, abci.UpdateValidator(pkb, pw, f[1]))
+				}
+			}
 		case strings.HasPrefix(tx, "param:"):
 			f := strings.Split(tx, ":")
 			if len(f) >= 3 {
